@@ -26,20 +26,43 @@ Definition size (sh : list nat) : nat := fold_right Nat.mul 1%nat sh.
 (* ---- heap *)
 Record obj := mkObj { o_buf : nat; o_off : nat; o_shape : list nat; o_dt : dtype;
                       o_wr : bool;      (* flags.writeable *)
-                      o_map : bool }.   (* backed by a copy-on-write mmap of the file *)
+                      o_map : bool;     (* backed by a copy-on-write mmap of the file *)
+                      o_rev : list bool }.  (* a view with negative strides: which axes run backwards ([] = none) *)
 Record heap := mkHeap { bufs : list (list Z); objs : list obj }.
 
-Definition dummy_obj := mkObj 0 0 [] F8 false false.
+Definition dummy_obj := mkObj 0 0 [] F8 false false [].
 Definition get_obj (h : heap) (o : nat) : obj := nth o (objs h) dummy_obj.
+(* reversal of some axes of an array held as a list in logical Fortran order; the shape and the
+   mask are given LAST AXIS FIRST (the last axis is the outermost in Fortran order) *)
+Fixpoint chunks {A} (bs : nat) (d : nat) (v : list A) : list (list A) :=
+  match d with O => [] | S d' => firstn bs v :: chunks bs d' (skipn bs v) end.
+Fixpoint rev_ax {A} (rmask : list bool) (rsh : list nat) (v : list A) : list A :=
+  match rmask with
+  | [] => v
+  | m :: rmask' =>
+    match rsh with
+    | [] => v
+    | d :: rsh' =>
+      let blocks := map (rev_ax rmask' rsh') (chunks (size rsh') d v) in
+      concat (if m then rev blocks else blocks)
+    end
+  end.
+(* the elements selected by (new shape, offset of the first one, reversed axes) *)
+Definition pick {A} (mk : list bool) (sh : list nat) (off : nat) (v : list A) : list A :=
+  rev_ax (rev mk) (rev sh) (firstn (size sh) (skipn off v)).
+
 Definition obj_vals (h : heap) (ob : obj) : list Z :=
-  firstn (size (o_shape ob)) (skipn (o_off ob) (nth (o_buf ob) (bufs h) [])).
+  pick (o_rev ob) (o_shape ob) (o_off ob) (nth (o_buf ob) (bufs h) []).
+(* position, in its buffer, of the element [0,...,0] of the array *)
+Definition first_pos (ob : obj) : nat :=
+  (o_off ob + hd O (rev_ax (rev (o_rev ob)) (rev (o_shape ob)) (seq 0 (size (o_shape ob)))))%nat.
 
 (* a new array owning a new buffer *)
 Definition alloc (h : heap) (vals : list Z) (sh : list nat) (dt : dtype) (wr mp : bool) : heap * nat :=
-  (mkHeap (bufs h ++ [vals]) (objs h ++ [mkObj (length (bufs h)) 0 sh dt wr mp]), length (objs h)).
+  (mkHeap (bufs h ++ [vals]) (objs h ++ [mkObj (length (bufs h)) 0 sh dt wr mp []]), length (objs h)).
 (* a new array object that is a view of [base] *)
-Definition alloc_view (h : heap) (base : obj) (off : nat) (sh : list nat) : heap * nat :=
-  (mkHeap (bufs h) (objs h ++ [mkObj (o_buf base) (o_off base + off) sh (o_dt base) (o_wr base) (o_map base)]),
+Definition alloc_view (h : heap) (base : obj) (off : nat) (sh : list nat) (mk : list bool) : heap * nat :=
+  (mkHeap (bufs h) (objs h ++ [mkObj (o_buf base) (o_off base + off) sh (o_dt base) (o_wr base) (o_map base) mk]),
    length (objs h)).
 
 Fixpoint upd {A} (n : nat) (f : A -> A) (l : list A) : list A :=
@@ -49,17 +72,21 @@ Fixpoint upd {A} (n : nat) (f : A -> A) (l : list A) : list A :=
   | x :: r, S n' => x :: upd n' f r
   end.
 
-(* ---- slicers used on dataobj: [...] (all of it) and [..., 1] *)
-Inductive slicer := SFull | SLast1.
-(* new shape and offset of the first selected element in logical F order; None = IndexError *)
-Definition sel_off (sl : slicer) (sh : list nat) : option (list nat * nat) :=
+(* ---- slicers used on dataobj: [...] (all of it), [..., 1], and full-length slices that run some
+   axes backwards ([::-1], [:, ::-1], [..., ::-1], ...; one flag per axis, at least one set) *)
+Inductive slicer := SFull | SLast1 | SRev (mk : list bool).
+(* new shape, offset of the first selected element in logical F order and reversed axes;
+   None = IndexError *)
+Definition sel_off (sl : slicer) (sh : list nat) : option (list nat * nat * list bool) :=
   match sl with
-  | SFull => Some (sh, O)
+  | SFull => Some (sh, O, [])
   | SLast1 => match rev sh with
               | [] => None
-              | last :: _ => if (2 <=? last)%nat then Some (removelast sh, size (removelast sh)) else None
+              | last :: _ => if (2 <=? last)%nat then Some (removelast sh, size (removelast sh), []) else None
               end
+  | SRev mk => if Nat.eqb (length mk) (length sh) then Some (sh, O, mk) else None
   end.
+Definition is_full (sl : slicer) : bool := match sl with SFull => true | _ => false end.
 
 (* ---- headers (only the fields that could matter to a read) *)
 Record hdr := mkHdr { h_shape : list nat; h_dt : dtype; h_off : Z; h_scl : option (Z * Z) }.
@@ -93,6 +120,7 @@ Record cstate := mkC { c_heap : heap; c_file : file; c_dobj : dataobj;
 Inductive caching := Fill | Unchanged.
 Inductive op :=
 | GetFdata (c : caching) (dt : dtype)
+| FdataBroken (c : caching) (dt : dtype)   (* get_fdata(c, dt) while the backing file cannot be opened *)
 | AsArray                    (* np.asarray(img.dataobj) *)
 | Slice (sl : slicer)        (* img.dataobj[sl] *)
 | Uncache
@@ -104,7 +132,7 @@ Inductive op :=
 | ReadHdr                    (* observe img.header *)
 | ReadSpec.                  (* observe dataobj.shape / dtype / slope / inter *)
 
-Inductive err := ENotFloat | EExpired | EReadOnly | EIndex | EShortFile.
+Inductive err := ENotFloat | EExpired | EReadOnly | EIndex | EShortFile | EUnreadable.
 Inductive out :=
 | ONone
 | OArr (o : nat)
@@ -129,12 +157,12 @@ Definition proxy_read (h : heap) (f : file) (p : pspec) (dt : option dtype) (sl 
   : (heap * nat) + err :=
   match sel_off sl (p_shape p) with
   | None => inr EIndex                                   (* canonical_slicers, before any read *)
-  | Some (sh, off) =>
+  | Some (sh, off, mk) =>
     if (length (f_vals f) <? size (p_shape p))%nat then inr EShortFile else
-    let v := firstn (size sh) (skipn off (firstn (size (p_shape p)) (f_vals f))) in
+    let v := pick mk sh off (firstn (size (p_shape p)) (f_vals f)) in
     (* array_from_file: memmap mode 'c' when mmap and the file is not compressed, else a
        bytearray-backed array - both writable, both a new object; fileslice: read-only *)
-    let full := match sl with SFull => true | SLast1 => false end in
+    let full := is_full sl in
     let mapped := full && p_mmap p && negb (f_gz f) in
     if scaledp p then
       (* arr * slope + inter in float64; then astype(promote(f8,dt)) and astype(dt) *)
@@ -168,7 +196,7 @@ Definition getitem (st : cstate) (sl : slicer) : (heap * nat) + err :=
     let ob := get_obj (c_heap st) o in
     match sel_off sl (o_shape ob) with
     | None => inr EIndex
-    | Some (sh, off) => inl (alloc_view (c_heap st) ob off sh)
+    | Some (sh, off, mk) => inl (alloc_view (c_heap st) ob off sh mk)
     end
   | DProxy p =>
     proxy_read (c_heap st) (c_file st) p None sl
@@ -188,9 +216,9 @@ Definition with_orig (st : cstate) (h : hdr) : cstate :=
 Definition is_some {A} (o : option A) : bool := match o with Some _ => true | None => false end.
 Definition is_arr (d : dataobj) : bool := match d with DArr _ => true | DProxy _ => false end.
 
-Definition cstep (st : cstate) (o : op) : cstate * out :=
-  match o with
-  | GetFdata c dt =>
+(* get_fdata; [broken]: every attempt to open the image file raises (FileNotFoundError / OSError) -
+   nothing has been assigned yet when np.asanyarray raises, so the state is untouched *)
+Definition fdata_step (broken : bool) (st : cstate) (c : caching) (dt : dtype) : cstate * out :=
     if negb (is_float dt) then (st, ORefused ENotFloat) else
     let hit := match c_fcache st with
                | Some k => if dtype_eqb (o_dt (get_obj (c_heap st) k)) dt then Some k else None
@@ -199,13 +227,18 @@ Definition cstep (st : cstate) (o : op) : cstate * out :=
     match hit with
     | Some k => (with_heap_last st (c_heap st) k, OArr k)
     | None =>
-      match asanyarray st (Some dt) with
+      match (if broken && negb (is_arr (c_dobj st)) then inr EUnreadable else asanyarray st (Some dt)) with
       | inr e => (st, ORefused e)
       | inl (h, r) =>
         let st1 := with_heap_last st h r in
         (match c with Fill => with_fcache st1 (Some r) | Unchanged => st1 end, OArr r)
       end
-    end
+    end.
+
+Definition cstep (st : cstate) (o : op) : cstate * out :=
+  match o with
+  | GetFdata c dt => fdata_step false st c dt
+  | FdataBroken c dt => fdata_step true st c dt
   | AsArray =>
     match asanyarray st None with
     | inr e => (st, ORefused e)
@@ -223,7 +256,7 @@ Definition cstep (st : cstate) (o : op) : cstate * out :=
     | Some k =>
       let ob := get_obj (c_heap st) k in
       if o_wr ob then
-        let h' := mkHeap (upd (o_buf ob) (upd (o_off ob) (fun x => x + 7)) (bufs (c_heap st))) (objs (c_heap st)) in
+        let h' := mkHeap (upd (o_buf ob) (upd (first_pos ob) (fun x => x + 7)) (bufs (c_heap st))) (objs (c_heap st)) in
         (mkC h' (c_file st) (c_dobj st) (c_fcache st) (c_dcache st) (c_hdr st) (c_orig st) (c_last st) (c_expired st), ONone)
       else (st, ORefused EReadOnly)
     end
@@ -264,7 +297,7 @@ Fixpoint crun (st : cstate) (ops : list op) : cstate * list out :=
 (* Nifti1Image(arr, affine, header=h0): the array is used as it is; the header is copied
    (from_header), its shape harmonised with the data (update_header), scaling and offset reset *)
 Definition init_array (vals : list Z) (sh : list nat) (dt : dtype) (h0 : hdr) (expired : bool) : cstate :=
-  mkC (mkHeap [vals] [mkObj 0 0 sh dt true false]) (mkFile false []) (DArr 0%nat) None None
+  mkC (mkHeap [vals] [mkObj 0 0 sh dt true false []]) (mkFile false []) (DArr 0%nat) None None
       (set_scl None (set_off 0 (set_shape sh h0))) h0 None expired.
 (* proxy = ArrayProxy(file, h0, mmap=mm); image = Nifti1Image(proxy, affine, header=h0)
    (what from_file_map does with header / header.copy()) *)
@@ -292,9 +325,9 @@ Definition spec_read (h : heap) (sh : list nat) (vals : list Z) (ndt : dtype) (s
            (dt : option dtype) (sl : slicer) : (heap * nat) + err :=
   match sel_off sl sh with
   | None => inr EIndex
-  | Some (sh', off) =>
-    let v := firstn (size sh') (skipn off vals) in
-    let full := match sl with SFull => true | SLast1 => false end in
+  | Some (sh', off, mk) =>
+    let v := pick mk sh' off vals in
+    let full := is_full sl in
     let natural := match dt with None => true | Some d => dtype_eqb d ndt end in
     if natural then inl (alloc h v sh' ndt (full || scaled) (full && mapped && negb scaled))
     else inl (alloc h v sh' (match dt with Some d => d | None => ndt end) true false)
@@ -319,7 +352,7 @@ Definition spec_slice (st : sstate) (sl : slicer) : (heap * nat) + err :=
     let ob := get_obj (s_heap st) own in
     match sel_off sl (o_shape ob) with
     | None => inr EIndex
-    | Some (sh, off) => inl (alloc_view (s_heap st) ob off sh)
+    | Some (sh, off, mk) => inl (alloc_view (s_heap st) ob off sh mk)
     end
   | SProxy sh vals ndt sc mp => spec_read (s_heap st) sh vals ndt sc mp None sl
   | SBroken sh => match sel_off sl sh with None => inr EIndex | Some _ => inr EShortFile end
@@ -330,20 +363,25 @@ Definition s_with (st : sstate) (h : heap) (o : nat) : sstate :=
 
 (* header operations are invisible to the specification (ReadHdr is not a data access: its
    output is not covered by the refinement and is compared directly by the harness) *)
-Definition sstep (st : sstate) (o : op) : sstate * out :=
-  match o with
-  | GetFdata c dt =>
+Definition s_is_arr (k : skind) : bool := match k with SArr _ => true | _ => false end.
+Definition s_fdata_step (broken : bool) (st : sstate) (c : caching) (dt : dtype) : sstate * out :=
     if negb (is_float dt) then (st, ORefused ENotFloat) else
     match (match s_cache st with Some (k, d) => if dtype_eqb d dt then Some k else None | None => None end) with
     | Some k => (s_with st (s_heap st) k, OArr k)
     | None =>
-      match spec_fresh st (Some dt) with
+      (* a read that fails is a no-op: cache, its contents and in_memory stay as they were *)
+      match (if broken && negb (s_is_arr (s_kind st)) then inr EUnreadable else spec_fresh st (Some dt)) with
       | inr e => (st, ORefused e)
       | inl (h, r) =>
         let st1 := s_with st h r in
         (match c with Fill => mkS h (s_kind st) (Some (r, dt)) (s_dcache st) (Some r) (s_expired st) | Unchanged => st1 end, OArr r)
       end
-    end
+    end.
+
+Definition sstep (st : sstate) (o : op) : sstate * out :=
+  match o with
+  | GetFdata c dt => s_fdata_step false st c dt
+  | FdataBroken c dt => s_fdata_step true st c dt
   | AsArray =>
     match spec_fresh st None with
     | inr e => (st, ORefused e)
@@ -361,7 +399,7 @@ Definition sstep (st : sstate) (o : op) : sstate * out :=
     | Some k =>
       let ob := get_obj (s_heap st) k in
       if o_wr ob then
-        (mkS (mkHeap (upd (o_buf ob) (upd (o_off ob) (fun x => x + 7)) (bufs (s_heap st))) (objs (s_heap st)))
+        (mkS (mkHeap (upd (o_buf ob) (upd (first_pos ob) (fun x => x + 7)) (bufs (s_heap st))) (objs (s_heap st)))
              (s_kind st) (s_cache st) (s_dcache st) (s_last st) (s_expired st), ONone)
       else (st, ORefused EReadOnly)
     end
